@@ -51,6 +51,21 @@ def sweep(run, thorough):
             if size <= 8:
                 cases.append(dict(body=f"; .arch x64 ; lea eax, Rq(r) => {ty}[rcx]{at}", vars=[("r", "u8")]))
                 meta.append(("r", 1, size, off))
+    # displacement-size override: a displacement that fits is a disp8; one that does NOT fit must never become another address
+    # (want = None: the only acceptable outcomes are a panic when the code runs — the value is a Rust constant expression the macro cannot see)
+    for b in (0, 3, 12):
+        cases.append(dict(body=f"; .arch x64 ; lea eax, {G64[b]} => P8[BYTE 5].c", vars=[]))
+        meta.append((b, None, 0, 5 * 8 + 6))
+        cases.append(dict(body=f"; .arch x64 ; lea eax, {G64[b]} => Big[BYTE 0].b", vars=[]))
+        meta.append((b, None, 0, 8))
+        cases.append(dict(body=f"; .arch x64 ; lea eax, {G64[b]} => Big[BYTE 0].c", vars=[]))
+        meta.append((b, None, 0, "unencodable"))        # offset 128
+        cases.append(dict(body=f"; .arch x64 ; lea eax, {G64[b]} => Big[BYTE 0].e", vars=[]))
+        meta.append((b, None, 0, "unencodable"))        # offset 432
+        cases.append(dict(body=f"; .arch x64 ; lea eax, {G64[b]} => Big[BYTE 1]", vars=[]))
+        meta.append((b, None, 0, "unencodable"))        # 440
+        cases.append(dict(body=f"; .arch x64 ; lea eax, {G64[b]} => P8[BYTE w].d", vars=[("w", "i8")]))
+        meta.append((b, None, 0, ("w", 8, 7)))
     ok, log = dyn.build("C13T", cases, PRELUDE)
     if not ok:
         run.violation("broken-correspondence", {"kind": "harness-build", "harness": "dyn-typemap"}, "the generated crate with type-mapped operands does not build against the working tree",
@@ -62,11 +77,15 @@ def sweep(run, thorough):
         runs = [[]]
         if cases[i]["vars"] and cases[i]["vars"][0][0] == "v":
             runs = [[0], [1], [-1], [7], [-16]]
+        elif cases[i]["vars"] and cases[i]["vars"][0][0] == "w":
+            runs = [[0], [1], [-1], [15], [-16], [16], [-17], [100]]
         elif cases[i]["vars"]:
             runs = [[n] for n in (0, 4, 5, 12, 13, 15)]
         for vals in runs:
             bb = vals[0] if b == "r" else b
             o = off if not isinstance(off, tuple) else off[2] + vals[0] * off[1]
+            if cases[i]["vars"] and cases[i]["vars"][0][0] == "w" and not -128 <= o <= 127:
+                o = "unencodable"
             coef = {("g", bb): 1}
             if idx is not None:
                 coef[("g", idx)] = coef.get(("g", idx), 0) + scale
@@ -84,12 +103,20 @@ def sweep(run, thorough):
         stats["checked"] += 1
         coef, disp, _ = lin
         wcoef, wdisp = want[k]
+        if wdisp == "unencodable":
+            run.violation("failing-input", {"kind": "typemap-truncated-displacement", "case": re.sub(r"G64|r1[0-5]|r[0-9]|rax|rbx|rsp|rbp", "R", cases[i]["body"])[:60]},
+                          f"dynasm!(ops {cases[i]['body']}) with {vals} assembles to {res[k][1].hex()} = `{text}`: the displacement the Rust types define does not fit the "
+                          f"BYTE displacement that was asked for; it was truncated into another address instead of being reported",
+                          {"stream": "dyn", "case": cases[i], "values": vals, "prelude": PRELUDE})
+            continue
         if coef != wcoef or (disp - wdisp) % (1 << 32) != 0:
             run.violation("failing-input", {"kind": "typemap-wrong-address", "case": re.sub(r"G64|r1[0-5]|r[0-9]|rax|rbx|rsp|rbp", "R", cases[i]["body"])[:60]},
                           f"dynasm!(ops {cases[i]['body']}) with {vals} assembles to {res[k][1].hex()} = `{text}`: the Rust types define {c13.fmt_coef(wcoef)} + {wdisp}",
                           {"stream": "dyn", "case": cases[i], "values": vals, "prelude": PRELUDE})
     for k, (st, b) in enumerate(res):
-        if st != "ok":
+        if st != "ok" and want[k][1] == "unencodable":
+            stats["unencodable_reported"] = stats.get("unencodable_reported", 0) + 1
+        elif st != "ok":
             i, vals = reqs[k]
             run.violation("failing-input", {"kind": "typemap-panics", "case": cases[i]["body"][:60]}, f"dynasm!(ops {cases[i]['body']}) with {vals} panics: {b[:100]}",
                           {"stream": "dyn", "case": cases[i], "values": vals, "prelude": PRELUDE})
